@@ -59,13 +59,15 @@ def make(rule, sign, reduction=identity_reduction):
     raise ValueError(rule)
 
 
-def reference(rule, sign, dt, pre_syn, post, Ks, signals, gamma):
+def reference(rule, sign, dt, pre_syn, post, Ks, signals, gamma, parts=False):
     """pre_syn (T,B,N,L), post (T,B,F,L) bool; Ks list of (F,N) delays in TIME per step; -> (T,B,F,N) signed update of step t"""
     sp, sn = SIGNS[sign]
     lp, ln = sp * LRP, sn * LRN
     T, B, N, L = pre_syn.shape
     Fn = post.shape[2]
     out = torch.zeros(T, B, Fn, N, dtype=F64)
+    out_pos = torch.zeros(T, B, Fn, N, dtype=F64)
+    out_neg = torch.zeros(T, B, Fn, N, dtype=F64)
     last_pre = torch.full((B, N, L), float("nan"), dtype=F64)
     last_post = torch.full((B, Fn, L), float("nan"), dtype=F64)
     for t in range(T):
@@ -85,10 +87,14 @@ def reference(rule, sign, dt, pre_syn, post, Ks, signals, gamma):
             val = lp * torch.exp(-a / TCP) * causal + ln * torch.exp(-a / TCN) * anti
         else:
             val = ln * torch.exp(-a / TCN) * causal + lp * torch.exp(-a / TCP) * anti
-        val = val.sum(-1)
         if rule in ("da-mstdp", "da-mstdpd"):
             val = val * (signals[t] * gamma)
-        out[t] = val
+        out[t] = val.sum(-1)
+        # parts: every (synapse, position) term is routed by its own sign before the receptive positions are summed
+        out_pos[t] = val.clamp_min(0).sum(-1)
+        out_neg[t] = -val.clamp_max(0).sum(-1)
+    if parts:
+        return out, out_pos, out_neg
     return out
 
 
@@ -169,7 +175,7 @@ def shard(rule, conn, nio, T, dt, sign, sched):
                 tally.violation(f"exception:{rule}:{type(ex).__name__}", {**case, "step": t}, f"{type(ex).__name__}: {ex}", None, repr(ex))
                 okrun = False
                 break
-            ref = reference(rule, sign, dt, pre_syn[: t + 1], post[: t + 1], Ks, signals, gamma)
+            ref, ref_pos, ref_neg = reference(rule, sign, dt, pre_syn[: t + 1], post[: t + 1], Ks, signals, gamma, parts=True)
             acc = getattr(layer.connection.updater, param)
             z = torch.zeros(B, *spec.wshape, dtype=F64)
             pos, neg = acc.pos, acc.neg
@@ -191,9 +197,19 @@ def shard(rule, conn, nio, T, dt, sign, sched):
                                 f"delays {d_t.reshape(-1).tolist()})", exp_total[b].tolist(), total[b].tolist())
                 okrun = False
                 break
-            for nm, part in (("pos", pos), ("neg", neg)):
+            for nm, part, pref in (("pos", pos, ref_pos), ("neg", neg, ref_neg)):
                 if part is not None and bool((part < -1e-9).any()):
                     tally.violation(f"negative-part:{rule}:{nm}", {**case, "step": t}, f"{nm} part has negative entries")
+                pv = z if part is None else part.to(F64)
+                pe = spec.to_weight_space(pref.sum(0))
+                dd = ((pv - pe).abs() * mask).reshape(B, -1).amax(1)
+                bi = (dd > 1e-5).nonzero().reshape(-1)
+                if len(bi):
+                    b = int(bi[0])
+                    tally.violation(f"routing:{rule}:{sign}:{nm}", {**case, "step": t, "pre_history": [pre_bits[u][b] for u in range(t + 1)],
+                                    "post_history": [post_bits[u][b] for u in range(t + 1)]},
+                                    f"step {t}: {nm} part {pv[b].reshape(-1).tolist()} but the same-signed terms sum to {pe[b].reshape(-1).tolist()}")
+                    okrun = False
             # cross-implementation agreement (both parts, not only the net)
             for pr, (l2, t2) in partners.items():
                 a2 = getattr(l2.connection.updater, param)
